@@ -32,13 +32,13 @@ func init() {
 }
 
 type c07Frame struct {
-	msg       *WMsg
-	raw       []byte
-	hdrLen    int
-	signal    bool
-	oversize  bool
-	declared  uint64
-	start     int // offset in the stream
+	msg      *WMsg
+	raw      []byte
+	hdrLen   int
+	signal   bool
+	oversize bool
+	declared uint64
+	start    int // offset in the stream
 }
 
 func c07Run(e *Env, tlsShim bool) {
